@@ -7,6 +7,7 @@
 //
 //	POST /g/sse/<keepAliveNanos>   GraphQL endpoint, transport.SSE{KeepAlivePingInterval}
 //	POST /g/mm/<deliveryNanos>     GraphQL endpoint, transport.MultipartMixed{Boundary, DeliveryTimeout}
+//	POST /h/sse/<keepAliveNanos>   the same through the gate writer of gate.go (Mechanism A)
 //	GET  /ctl/state?id=            what the server saw of scenario id (+ live transport goroutines)
 //	POST /ctl/release?id=          open the next gate of scenario id
 //
@@ -51,6 +52,8 @@ type Scn struct {
 	DelaysNs []int64 `json:"delays_ns"`
 	// nanoseconds to wait before ending the sequence (returning nil); -1 = gate
 	EndDelayNs int64 `json:"end_delay_ns"`
+	// /h/ endpoints only: which call the gate writer holds open (see gate.go)
+	Hold string `json:"hold"`
 }
 
 type rec struct {
@@ -60,6 +63,7 @@ type rec struct {
 	entered  bool
 	returned bool
 	gate     chan struct{}
+	obs      *gateObs
 }
 
 type scnKey struct{}
@@ -227,8 +231,9 @@ func transportGoroutines() (int, string) {
 func main() {
 	log.SetOutput(io.Discard)
 	mux := http.NewServeMux()
-	mux.HandleFunc("/g/", func(w http.ResponseWriter, req *http.Request) {
-		parts := strings.Split(strings.TrimPrefix(req.URL.Path, "/g/"), "/")
+	serve := func(w http.ResponseWriter, req *http.Request) {
+		gated := strings.HasPrefix(req.URL.Path, "/h/")
+		parts := strings.Split(req.URL.Path[3:], "/")
 		if len(parts) != 2 {
 			http.Error(w, "bad path", 404)
 			return
@@ -264,8 +269,17 @@ func main() {
 				r.mu.Unlock()
 			}
 		}()
+		if gated && r != nil {
+			obs := serveGated(w, req, gqlServer(parts[0], ns), r.scn.Hold, time.Duration(ns))
+			r.mu.Lock()
+			r.obs = &obs
+			r.mu.Unlock()
+			return
+		}
 		gqlServer(parts[0], ns).ServeHTTP(w, req)
-	})
+	}
+	mux.HandleFunc("/g/", serve)
+	mux.HandleFunc("/h/", serve)
 	mux.HandleFunc("/ctl/state", func(w http.ResponseWriter, req *http.Request) {
 		out := map[string]any{"active": active.Load(), "found": false, "produced": []int{}, "entered": false, "returned": false}
 		if v, ok := recs.Load(req.URL.Query().Get("id")); ok {
@@ -273,6 +287,9 @@ func main() {
 			r.mu.Lock()
 			out["found"], out["entered"], out["returned"] = true, r.entered, r.returned
 			out["produced"] = append([]int{}, r.produced...)
+			if r.obs != nil {
+				out["gate"] = r.obs
+			}
 			r.mu.Unlock()
 		}
 		n, which := transportGoroutines()
